@@ -4,7 +4,7 @@ import itertools
 
 from sa.astutil import (norm, guards_of, walk_no_nested, always_exits, parent, enclosing, stmt_of,
                         names_in, qualname, subst, Guard)
-from sa.c18_util import BV, SB, SymMem, Interp, Closure, strip_doc, decorators
+from sa.c18_util import BV, SB, SymMem, MemView, int_from_bytes, Interp, Closure, strip_doc, decorators
 from sa.errors import AnalysisError
 from sa.minieval import Raised
 from sa.report import RuleResult
@@ -36,7 +36,10 @@ EXPLANATION = (
     "R-C18-pairing: one update_once block, one MagicMemoryFL instance, loop visits every port once, per port i the "
     "request is taken and the memory touched only under a guard implying request-valid AND response-ready of the SAME "
     "index, exactly one response on every path, ports wired index-to-index. "
-    "R-C18-endian: read/write byte helpers evaluated over symbolic bytes for 1..8 bytes are little-endian inverses; "
+    "R-C18-endian: read/write byte helpers evaluated over symbolic bytes for 1..8 bytes at an aligned and a misaligned "
+    "address are little-endian inverses (byte loops, slice assignment, int.to_bytes/from_bytes and memoryview(...).cast() "
+    "word views are modelled); a helper that only accepts data of exactly nbytes bytes is accepted iff every caller slices "
+    "the data to its low bytes (helper and callers are judged together, also by R-C18-dispatch); "
     "read_mem/write_mem address exactly [addr, addr+size). "
     "R-C18-purity: delay/stall components store only None or a private copy of the incoming message, never modify or "
     "construct a message, are FIFO shaped (insert slot 0, remove slot -1, rotate only when slot -1 is empty), the RNG "
@@ -47,6 +50,8 @@ ASSUMPTIONS = [
     "pymtl3 Bits semantics for + & | ^ comparisons .int() .uint() slicing (property C04/C05)",
     "message classes handed to the memories come from mk_mem_msg (field order checked in MemMsg.py)",
     "clone_deepcopy returns an independent equal copy; zext zero-extends",
+    "memoryview.cast('H'/'I'/'Q') items are native little-endian 2/4/8-byte integers (little-endian host)",
+    "values handed to MagicMemoryFL.write by amo() are at most nbytes bytes wide (sub-word AMOs on wider data are unsupported)",
     "CL method-call scheduling (C02) and update_once/update_ff semantics (C07) are as documented",
     "AMO functions are judged on 3-bit operands; they are width-uniform expressions (no width-dependent constant)",
 ]
@@ -672,6 +677,11 @@ def rule_dispatch(repo):
                                     break
                     elif norm(b) != f'{c.req}.data':
                         problems.append(f"data argument is {norm(a)}, must be {c.req}.data")
+                    elif meth == 'write' and not _write_helper_on_wide_data(repo):
+                        problems.append(f"the whole data field is handed to the memory although only the decoded byte count is "
+                                        f"written, and write_bytearray_bits does not cut a wider value down to its low bytes: "
+                                        f"the data must be confined to {c.req}.data[0:8*len] (a sub-word write with non-zero "
+                                        f"upper data bytes raises / corrupts memory)")
             if problems:
                 r.bad(c.m, c.q, cons, '; '.join(problems) + " -- the request touches other bytes / other data than it names",
                       call.lineno)
@@ -1237,6 +1247,54 @@ def _bits_ctor(nb, v=0):
     return ('Bits', int(nb), SB.of(v))
 
 
+def _byte_funcs():
+    return dict(BASE_FUNCS, Bits=_bits_ctor, memoryview=MemView, **{'int.from_bytes': int_from_bytes})
+
+
+def _eval_write_helper(wr, funcs, BASE, n, extra):
+    """(ok, what was seen, steps) for write_bytearray_bits(arr, BASE, n, data of n+extra symbolic bytes)"""
+    mem = SymMem({})
+    it = Interp({}, funcs=funcs)
+    data = SB([f'D{k}' for k in range(n + extra)])
+    try:
+        it.apply(Closure(wr, {}), [mem, BV(16, BASE), n, data])
+        err = None
+    except Raised as ex:
+        err = ex.what
+    exp = {BASE + k: f'D{k}' for k in range(n)}
+    show = {f'A{a - BASE:+d}': v for a, v in sorted(mem.cells.items())}
+    return (err is None and mem.cells == exp), f"leaves {show}" + (f" and raises {err}" if err else ''), it.steps
+
+
+def _write_helper_on_wide_data(repo):
+    """True iff write_bytearray_bits stores exactly the low n bytes also when the data value is wider than n bytes"""
+    cache = repo.__dict__.setdefault('_c18_cache', {})
+    if 'wide' not in cache:
+        wr = repo.mod(BYTES).functions.get('write_bytearray_bits')
+        if wr is None:
+            raise AnalysisError("anchor vanished: write_bytearray_bits")
+        cache['wide'] = all(_eval_write_helper(wr, _byte_funcs(), B, n, 2)[0] for B in (1000, 1003) for n in range(1, 9))
+    return cache['wide']
+
+
+def _unconfined_write_sites(repo):
+    """[(qualified block, call text)] of s.mem.write(...) calls in the up_mem blocks whose data argument is not a slice of the
+    request data (the slice bounds themselves are judged by R-C18-dispatch)"""
+    cache = repo.__dict__.setdefault('_c18_cache', {})
+    if 'loose' not in cache:
+        out = []
+        for vname, rel, cls in VARIANTS:
+            c = _ctx(repo, rel, cls)
+            defs = _up_defs(c)
+            for call in c.memcalls(c.loop):
+                if call.func.attr == 'write' and len(call.args) == 3:
+                    d = _deref(call.args[2], defs)
+                    if not (isinstance(d, ast.Subscript) and isinstance(d.slice, ast.Slice)):
+                        out.append((c.q, norm(call)))
+        cache['loose'] = out
+    return cache['loose']
+
+
 def rule_endian(repo):
     r = RuleResult('R-C18-endian', "byte helpers are little-endian inverses for 1..8 bytes (evaluated over symbolic bytes); "
                                    "read_mem/write_mem address exactly [addr, addr+size) of the one bytearray")
@@ -1244,7 +1302,9 @@ def rule_endian(repo):
     rd, wr = bm.functions.get('read_bytearray_bits'), bm.functions.get('write_bytearray_bits')
     if rd is None or wr is None:
         raise AnalysisError("anchor vanished: read_bytearray_bits / write_bytearray_bits")
-    funcs = dict(BASE_FUNCS, Bits=_bits_ctor)
+    funcs = _byte_funcs()
+    wide = _write_helper_on_wide_data(repo)
+    loose = _unconfined_write_sites(repo)
     for BASE, n in itertools.product((1000, 1003), range(1, 9)):
         # read
         mem = SymMem({BASE + k: f'M{k}' for k in range(-2, n + 3)})
@@ -1263,26 +1323,23 @@ def rule_endian(repo):
         else:
             r.bad(bm, 'read_bytearray_bits', cons, f"reading {n} byte(s) at A returns {got!r}; little-endian requires a {8 * n}-bit "
                   f"value whose byte k is arr[A+k]: {exp!r}", rd.lineno)
-        # write (data wider than n bytes: only the low n bytes may be stored)
+        # write: data of exactly n bytes must always work; data wider than n bytes (only the low n bytes may be stored) must
+        # work unless EVERY caller confines the data to the low n bytes -- helper and callers are judged together
         for extra in (0, 2):
-            mem = SymMem({})
-            it = Interp({}, funcs=funcs)
-            data = SB([f'D{k}' for k in range(n + extra)])
-            try:
-                it.apply(Closure(wr, {}), [mem, BV(16, BASE), n, data])
-                err = None
-            except Raised as ex:
-                err = ex.what
-            r.evaluations += it.steps
-            exp = {BASE + k: f'D{k}' for k in range(n)}
+            ok, seen, steps = _eval_write_helper(wr, funcs, BASE, n, extra)
+            r.evaluations += steps
             cons = f'write_bytearray_bits(arr, A={BASE}, {n}, <{n + extra} bytes>)'
-            if err is None and mem.cells == exp:
+            if ok:
                 r.ok(bm, 'write_bytearray_bits', cons)
+            elif extra and not loose:
+                r.ok(bm, 'write_bytearray_bits', cons, note="helper needs data confined to nbytes bytes; every caller slices")
+            elif extra:
+                r.bad(bm, 'write_bytearray_bits', cons, f"writing {n} byte(s) of a wider data value {seen}; the helper must store "
+                      f"the low {n} byte(s) of an arbitrary data value, because {loose[0][1]} in {loose[0][0]} passes the whole "
+                      f"data field (a sub-word write whose upper data bytes are non-zero fails / corrupts memory)", wr.lineno)
             else:
-                show = {f'A{a - BASE:+d}': v for a, v in sorted(mem.cells.items())}
-                r.bad(bm, 'write_bytearray_bits', cons, f"writing {n} byte(s) at A leaves {show}"
-                      f"{' and ' + err if err else ''}; little-endian requires arr[A+k] = byte k of the data for k < {n} and "
-                      f"nothing else", wr.lineno)
+                r.bad(bm, 'write_bytearray_bits', cons, f"writing {n} byte(s) at A {seen}; little-endian requires arr[A+k] = byte k "
+                      f"of the data for k < {n} and nothing else", wr.lineno)
     # read_mem / write_mem of MagicMemoryFL: the whole method is evaluated (helper locals, asserts, any statement order)
     fm = repo.mod(FL)
     store = [n for n in ast.walk(fm.get_class('MagicMemoryFL')) if isinstance(n, ast.Assign) and isinstance(n.value, ast.Call)
@@ -1898,6 +1955,19 @@ MUTANTS = [
     _m('read-width-bytes', BYTES, "return Bits( nbytes << 3, ret )", "return Bits( nbytes << 2, ret )", 'R-C18-endian'),
     _m('read-mem-off-by-one', FL, "return s.mem[ addr : addr + size ]", "return s.mem[ addr : addr + size - 1 ]", 'R-C18-endian'),
     _m('write-mem-shifted', FL, "s.mem[ addr : addr + len(data) ] = data", "s.mem[ addr + 1 : addr + 1 + len(data) ] = data", 'R-C18-endian'),
+    _m('read-word-fast-path-ignores-alignment', BYTES, "    begin = int(addr)\n    addr  = begin + nbytes - 1\n",
+       "    begin = int(addr)\n    if nbytes == 4:\n      return Bits( 32, memoryview( arr ).cast( 'I' )[ begin >> 2 ] )\n    addr  = begin + nbytes - 1\n", 'R-C18-endian'),
+    dict(name='write-unsliced-data-into-to_bytes-helper', file=BYTES, rule='R-C18', edits=[
+        dict(file=BYTES, old="    end  = addr + nbytes\n\n    while addr < end:\n      arr[addr] = data & 255\n      data >>= 8\n      addr += 1",
+             new="    arr[ addr : addr+nbytes ] = int(data).to_bytes( nbytes, 'little' )"),
+        dict(file=CL, old="s.mem.write( req.addr, len_, req.data[0:len_<<3] )", new="s.mem.write( req.addr, len_, req.data )"),
+        dict(file=STREAM, old="s.mem.write( req.addr, len_, req.data[0:len_<<3] )", new="s.mem.write( req.addr, len_, req.data )")]),
+    dict(name='stream-unsliced-data-into-to_bytes-helper', file=BYTES, rule='R-C18-dispatch', edits=[
+        dict(file=BYTES, old="    end  = addr + nbytes\n\n    while addr < end:\n      arr[addr] = data & 255\n      data >>= 8\n      addr += 1",
+             new="    arr[ addr : addr+nbytes ] = int(data).to_bytes( nbytes, 'little' )"),
+        dict(file=STREAM, old="s.mem.write( req.addr, len_, req.data[0:len_<<3] )", new="s.mem.write( req.addr, len_, req.data )")]),
+    _m('write-to_bytes-big-endian', BYTES, "    end  = addr + nbytes\n\n    while addr < end:\n      arr[addr] = data & 255\n      data >>= 8\n      addr += 1",
+       "    arr[ addr : addr+nbytes ] = int(data).to_bytes( nbytes, 'big' )", 'R-C18-endian'),
     # --- purity / FIFO shape
     _m('deq-pipe-no-copy', DELAY, "    s.pipeline[0] = clone_deepcopy(msg)\n\n  @non_blocking( lambda s: s.pipeline[-1] is not None )", "    s.pipeline[0] = msg\n\n  @non_blocking( lambda s: s.pipeline[-1] is not None )", 'R-C18-purity'),
     _m('deq-pipe-rotates-when-slot0-empty', DELAY, "        if s.pipeline[-1] is None:\n          s.pipeline.rotate()", "        if s.pipeline[0] is None:\n          s.pipeline.rotate()", 'R-C18-purity'),
@@ -1963,6 +2033,15 @@ EQUIV = [
     _m('deq-pipe-copy-local', DELAY, "    s.pipeline[0] = clone_deepcopy(msg)\n\n  @non_blocking( lambda s: s.pipeline[-1] is not None )", "    copy = clone_deepcopy(msg)\n    s.pipeline[0] = copy\n\n  @non_blocking( lambda s: s.pipeline[-1] is not None )"),
     _m('inelastic-valid-branches-flipped', STREAM, "      if s.delay_pipe[-1] is None:\n        s.send.val <<= 0\n      else:\n        s.send.val <<= 1\n        s.send.msg <<= s.delay_pipe[-1]",
        "      if s.delay_pipe[-1] is not None:\n        s.send.val <<= 1\n        s.send.msg <<= s.delay_pipe[-1]\n      else:\n        s.send.val <<= 0"),
+    _m('write-helper-to_bytes-callers-slice', BYTES, "    end  = addr + nbytes\n\n    while addr < end:\n      arr[addr] = data & 255\n      data >>= 8\n      addr += 1",
+       "    arr[ addr : addr+nbytes ] = int(data).to_bytes( nbytes, 'little' )"),
+    dict(name='callers-pass-whole-data-helper-truncates', file=CL, edits=[
+        dict(file=CL, old="s.mem.write( req.addr, len_, req.data[0:len_<<3] )", new="s.mem.write( req.addr, len_, req.data )"),
+        dict(file=STREAM, old="s.mem.write( req.addr, len_, req.data[0:len_<<3] )", new="s.mem.write( req.addr, len_, req.data )")]),
+    _m('read-word-fast-path-aligned-only', BYTES, "    begin = int(addr)\n    addr  = begin + nbytes - 1\n",
+       "    begin = int(addr)\n    if nbytes == 4 and begin & 3 == 0:\n      return Bits( 32, memoryview( arr ).cast( 'I' )[ begin >> 2 ] )\n    addr  = begin + nbytes - 1\n"),
+    _m('read-via-int-from_bytes', BYTES, "    addr  = begin + nbytes - 1\n\n    while addr >= begin:\n      ret = (ret << 8) + arr[addr]\n      addr -= 1\n",
+       "    ret = int.from_bytes( arr[ begin : begin+nbytes ], 'little' )\n"),
     _m('stall-rdy-conjuncts-swapped', STALL, "lambda s: s.stall_rgen.random() > s.stall_prob and s.send.rdy()", "lambda s: s.send.rdy() and s.stall_rgen.random() > s.stall_prob"),
 ]
 
